@@ -220,7 +220,7 @@ def model_check(ck):
 def classify(job, bad):
     """key for known-findings matching: which call path left which quantity stale."""
     mm = bad["mismatch"][0]
-    return {"config": "ctl" if job["config"]["ctl"] else "cpl", "action": bad["act"], "kind": mm.get("kind"),
+    return {"config": ("ctl_with_q" if job["config"]["ctl"] == "withq" else "ctl") if job["config"]["ctl"] else "cpl", "action": bad["act"], "kind": mm.get("kind"),
             "what": mm["what"]}
 
 
@@ -229,7 +229,8 @@ def classify(job, bad):
 # ---------------------------------------------------------------------------------------------------------------------
 def layered_state(st):
     tm = st["tm"]
-    return [st["e"], st["obl"], st["orb"], st["spin"], list(tm) if tm else []]
+    tw = st.get("tw")
+    return [st["e"], st["obl"], st["orb"], st["spin"], list(tm) if tm else [], tw if isinstance(tw, int) else []]
 
 
 def layered_part(ck, tier, rng):
@@ -312,6 +313,9 @@ def run(tier, seed, pid="C13"):
         dbehs = behaviours_from_sim(sync, obl, nsim * 2, depth, seed + 13, deferred=True)
         for ci, ctl in enumerate((False, True)):
             jobs.append({"config": {"sync": sync, "obl_on": obl, "ctl": ctl}, "form": ["scalar", "array"][ci], "behaviours": dbehs[ci::2]})
+        # the CTL law whose inputs are fixed_dt AND fixed_q: behaviours that contain fixed-Q changes, scalar form
+        wq = [b for b in behs if any(st[0] == "SetQ" for st in b)]
+        jobs.append({"config": {"sync": sync, "obl_on": obl, "ctl": "withq"}, "form": "scalar", "behaviours": (wq[:12] if tier == "quick" else wq[:150]) + dbehs[:4]})
         k = 0
         for ctl in (False, True):
             for form in forms:
